@@ -55,6 +55,7 @@ fn evaluate(tc: &cbuild::Toolchain, case: &Case, cfg: &CConfig, dir: &Path) -> V
     let t0 = std::time::Instant::now();
     let mut rec = json!({"case": case.id, "config": cfg.name()});
     let times = std::cell::RefCell::new([0f64; 5]);
+    let reached = std::cell::Cell::new(false);
     let (resolve, world) = match worlds::load(case) {
         Ok(x) => x,
         Err(e) => {
@@ -68,6 +69,12 @@ fn evaluate(tc: &cbuild::Toolchain, case: &Case, cfg: &CConfig, dir: &Path) -> V
         let t1 = std::time::Instant::now();
         let files = cbuild::generate(resolve, world, cfg).map_err(|m| cbuild::Fail { stage: "generate", msg: trim_msg(&m) })?;
         times.borrow_mut()[1] += t1.elapsed().as_secs_f64();
+        {
+            let w = &resolve.worlds[world];
+            if !w.imports.is_empty() || !w.exports.is_empty() {
+                reached.set(true);
+            }
+        }
         let d = dir.join(sub);
         let r = (|| {
             let built = cbuild::build(tc, &d, &files)?;
@@ -105,6 +112,7 @@ fn evaluate(tc: &cbuild::Toolchain, case: &Case, cfg: &CConfig, dir: &Path) -> V
                     if f2.stage == "encode" && f2.msg.contains(ASYNC_SYNC_MSG) && worlds::has_sync_typed_function(&r2, world) {
                         // constructors stay sync-typed: same class, nothing more to learn here
                         rec["outcome"] = json!("async-class-only");
+                        rec["reached_compiler"] = json!(reached.get());
                         rec["secs"] = json!(t0.elapsed().as_secs_f64());
                         return rec;
                     }
@@ -125,6 +133,7 @@ fn evaluate(tc: &cbuild::Toolchain, case: &Case, cfg: &CConfig, dir: &Path) -> V
     }
     rec["secs"] = json!(t0.elapsed().as_secs_f64());
     rec["times"] = json!(times.borrow().to_vec());
+    rec["reached_compiler"] = json!(reached.get());
     rec
 }
 
@@ -167,6 +176,10 @@ fn main() {
     let mut cases: Vec<Case> = Vec::new();
     let positions: Vec<&str> = if thorough { worlds::POSITIONS.to_vec() } else { vec!["all"] };
     cases.extend(worlds::named_cases(worlds::C_NAMES, &positions, "names"));
+    if !thorough {
+        // namespace / package positions for three names (thorough: every name)
+        cases.extend(worlds::named_cases(&["int", "errno", "exports"], &["namespace", "package"], "names"));
+    }
     cases.extend(worlds::type_cases(false, false));
     cases.extend(worlds::resource_cases());
     cases.extend(worlds::limit_cases());
@@ -236,7 +249,9 @@ fn main() {
     let mut fails: BTreeMap<(usize, String), Vec<(String, String)>> = BTreeMap::new();
     let mut outcomes: BTreeMap<String, usize> = BTreeMap::new();
     let mut nontrivial: BTreeSet<(String, String)> = BTreeSet::new();
+    let mut compared: BTreeSet<(String, String)> = BTreeSet::new();
     let mut samples = vcommon::Samples::new(12);
+    let mut fail_samples = vcommon::Samples::new(6);
     let mut tried: BTreeMap<usize, usize> = BTreeMap::new();
     let mut secs = 0.0;
     let mut stage_secs = [0f64; 5];
@@ -252,6 +267,9 @@ fn main() {
         if r["async_on_sync_rejected"] == true {
             async_class.push((*i, cfg.name()));
         }
+        if r["reached_compiler"] == true {
+            nontrivial.insert((cases[*i].id.clone(), cfg.name()));
+        }
         let o = r["outcome"].as_str().unwrap_or("?");
         match o {
             "ok" => {
@@ -260,10 +278,9 @@ fn main() {
                     derived_ok += 1;
                 }
                 *outcomes.entry("ok".into()).or_default() += 1;
-                // non-trivial: the component really carries imports or exports and stubs/bytes
                 let inf = &r["info"];
                 if inf["imports"].as_u64().unwrap_or(0) + inf["exports"].as_u64().unwrap_or(0) > 0 {
-                    nontrivial.insert((cases[*i].id.clone(), cfg.name()));
+                    compared.insert((cases[*i].id.clone(), cfg.name()));
                 }
                 samples.offer(|| json!({"case": cases[*i].id, "config": cfg.name(), "outcome": "ok", "info": inf}));
             }
@@ -275,6 +292,7 @@ fn main() {
                 let stage = r["stage"].as_str().unwrap_or("?").to_string();
                 let msg = r["msg"].as_str().unwrap_or("").to_string();
                 *outcomes.entry(format!("fail:{stage}: {}", first_error(&msg))).or_default() += 1;
+                fail_samples.offer(|| json!({"case": cases[*i].id, "config": cfg.name(), "outcome": "fail", "stage": stage, "error": first_error(&msg)}));
                 fails.entry((*i, stage)).or_default().push((cfg.name(), msg));
             }
             _ => {
@@ -287,7 +305,7 @@ fn main() {
         // one class, reported once, with the smallest affected world as the replayable witness
         let (i, cfg) = async_class
             .iter()
-            .min_by_key(|(i, _)| cases[*i].wit_text().len())
+            .min_by_key(|(i, _)| (matches!(cases[*i].source, worlds::Source::Corpus(_)), cases[*i].wit_text().len()))
             .cloned()
             .unwrap();
         run.violation(
@@ -322,11 +340,12 @@ fn main() {
     let coverage = json!({
         "evaluations": evaluations,
         "distinct_nontrivial": nontrivial.len(),
-        "rule": "distinct (world, configuration) pairs that went through clang, wasm-ld and ComponentEncoder(validate) and whose decoded component world has at least one import or export that was compared with the requested world",
+        "rule": "distinct (world, configuration) pairs with at least one import or export for which the generator produced C that was handed to clang (whatever the verdict); `compared_worlds` counts those that went all the way through clang, wasm-ld and ComponentEncoder(validate) and whose decoded world was compared with the requested one",
+        "compared_worlds": compared.len(),
         "exhaustive": exhaustive,
         "worlds": {"enumerated": n_enumerated, "corpus": n_corpus, "corpus_total": corpus_total, "eligible": eligible_worlds},
         "bounds": {
-            "name_alphabet": worlds::C_NAMES, "positions": positions, "leaves": worlds::LEAVES,
+            "name_alphabet": worlds::C_NAMES, "positions": positions, "position_all": "every naming position except namespace/package", "leaves": worlds::LEAVES,
             "type_families": worlds::type_families(false, false).iter().map(|f| json!({"family": f.0, "types": f.2.len()})).collect::<Vec<_>>(),
             "configurations": all_cfgs.iter().map(|c| c.name()).collect::<Vec<_>>(),
             "corpus_step": corpus_step,
@@ -345,7 +364,7 @@ fn main() {
         "toolchain": {"clang": tc.clang_version, "clang_flags": cbuild::CLANG_FLAGS, "ld_flags": cbuild::LD_FLAGS},
         "worker_seconds": secs,
         "worker_seconds_by_stage": {"load": stage_secs[0], "generate": stage_secs[1], "clang": stage_secs[2], "wasm-ld": stage_secs[3], "encode+decode+compare": stage_secs[4]},
-        "samples": samples.items,
+        "samples": samples.items.into_iter().chain(fail_samples.items).collect::<Vec<_>>(),
     });
     scratch.remove();
     run.finish(
